@@ -11,6 +11,8 @@
 //	rewriter tailerr        if err != nil { return err }; return nil  ->  return err      (functions whose only result is the error)
 //	rewriter expanderr      return f(x)  ->  errX := f(x); if errX != nil { return errX }; return nil   (same functions)
 //	rewriter renamefuncs    every unexported function and method f becomes fHlp (not those that implement an interface method)
+//	rewriter renamefields   every unexported, not embedded struct field f becomes fFld
+//	rewriter renametypes    every unexported named type t becomes tTyp
 //	rewriter earlyelse      if c { return … }; rest…  ->  unchanged order, but with an explicit else around nothing (no-op guard)
 package main
 
@@ -66,6 +68,10 @@ func main() {
 				n = rangeIndex(pk, f)
 			case "renamefuncs":
 				n = renameFuncs(pkgs, pk, f)
+			case "renamefields":
+				n = renameFields(pk, f)
+			case "renametypes":
+				n = renameTypes(pk, f)
 			case "tailerr":
 				n = tailErr(pk, f, false)
 			case "expanderr":
@@ -547,6 +553,64 @@ func renameFuncs(pkgs []*packages.Package, pk *packages.Package, f *ast.File) in
 			return true
 		}
 		id.Name = id.Name + "Hlp"
+		n++
+		return true
+	})
+	return n
+}
+
+// renameFields renames the unexported struct fields of the module (embedded fields keep the name of their type).
+func renameFields(pk *packages.Package, f *ast.File) int {
+	n := 0
+	ast.Inspect(f, func(nd ast.Node) bool {
+		id, ok := nd.(*ast.Ident)
+		if !ok {
+			return true
+		}
+		o := pk.TypesInfo.Defs[id]
+		if o == nil {
+			o = pk.TypesInfo.Uses[id]
+		}
+		v, ok := o.(*types.Var)
+		if !ok || !v.IsField() || v.Embedded() || v.Exported() || v.Pkg() == nil || v.Name() == "_" {
+			return true
+		}
+		if !strings.HasPrefix(v.Pkg().Path(), "github.com/thomasjungblut/go-sstables") {
+			return true
+		}
+		if pos := pk.Fset.Position(v.Pos()); strings.HasSuffix(pos.Filename, ".pb.go") || strings.Contains(pos.Filename, "kaitai/gokaitai") || strings.Contains(pos.Filename, "_examples") {
+			return true
+		}
+		id.Name = id.Name + "Fld"
+		n++
+		return true
+	})
+	return n
+}
+
+// renameTypes renames the unexported named types of the module.
+func renameTypes(pk *packages.Package, f *ast.File) int {
+	n := 0
+	ast.Inspect(f, func(nd ast.Node) bool {
+		id, ok := nd.(*ast.Ident)
+		if !ok {
+			return true
+		}
+		o := pk.TypesInfo.Defs[id]
+		if o == nil {
+			o = pk.TypesInfo.Uses[id]
+		}
+		tn, ok := o.(*types.TypeName)
+		if !ok || tn.Exported() || tn.Pkg() == nil || tn.Parent() != tn.Pkg().Scope() {
+			return true
+		}
+		if !strings.HasPrefix(tn.Pkg().Path(), "github.com/thomasjungblut/go-sstables") {
+			return true
+		}
+		if pos := pk.Fset.Position(tn.Pos()); strings.HasSuffix(pos.Filename, ".pb.go") || strings.Contains(pos.Filename, "kaitai/gokaitai") || strings.Contains(pos.Filename, "_examples") {
+			return true
+		}
+		id.Name = id.Name + "Typ"
 		n++
 		return true
 	})
